@@ -15,7 +15,7 @@ from . import apisim_common as ac
 
 PROPERTY = "C09"
 TIERS = {
-    "quick": {"runs": 600, "budget_s": 110, "chunk": 8},
+    "quick": {"runs": 3000, "budget_s": 110, "chunk": 8},
     "thorough": {"runs": 20000, "budget_s": 900, "chunk": 16},
 }
 REQUIRED_PROBES = {
